@@ -131,8 +131,8 @@ func LoadState(dir string, mbs int, name string) State {
 			id = 1 << 20 // a key the workload never wrote: shows up as a mismatch
 		}
 		v, err := t.GetContentInt64()
-		if err != nil {
-			v = -1
+		if err != nil || v < 0 {
+			v = 999999999 // not an int64 content the workload wrote: shows up as a mismatch
 		}
 		st = append(st, [2]int64{int64(id), v})
 	}
